@@ -429,6 +429,61 @@ fn deep_case(ctx: &Ctx, tape: &[u8], rec: &Rec) -> Verdict {
     run_project(ctx, &Project { files: vec![("d.circom".into(), src.into_bytes())] }, &mut t, rec, "deep")
 }
 
+/// Directory arguments: trees with ordinary files, non-Circom files, nested directories and symlink
+/// cycles (`self -> .`, `up -> ..`, a cycle between two directories).
+fn directory_cases(ctx: &Ctx, stats: &Stats) -> Vec<Failure> {
+    let root = scratch(ctx, "dirs");
+    let valid = "pragma circom 2.0.0;\ntemplate T() { signal input a; signal output b; b <-- a * a; }\n";
+    let mk = |rel: &str, content: &str| {
+        let p = root.join(rel);
+        let _ = std::fs::create_dir_all(p.parent().unwrap());
+        let _ = std::fs::write(p, content);
+    };
+    mk("plain/a.circom", valid);
+    mk("plain/sub/b.circom", valid);
+    mk("plain/notes.txt", "not circom");
+    mk("selfloop/a.circom", valid);
+    let _ = std::os::unix::fs::symlink(".", root.join("selfloop/self"));
+    mk("uploop/sub/b.circom", valid);
+    let _ = std::os::unix::fs::symlink("..", root.join("uploop/sub/up"));
+    mk("pair/x/a.circom", valid);
+    mk("pair/y/b.circom", "pragma circom 2.0.0;\ntemplate U() { signal input a; }\n");
+    let _ = std::os::unix::fs::symlink("../y", root.join("pair/x/to_y"));
+    let _ = std::os::unix::fs::symlink("../x", root.join("pair/y/to_x"));
+    mk("empty/.keep", "");
+    let _ = std::os::unix::fs::symlink("nowhere", root.join("plain/dangling"));
+    let args: Vec<Vec<&str>> = vec![
+        vec!["plain"],
+        vec!["plain/sub", "plain"],
+        vec!["selfloop"],
+        vec!["uploop"],
+        vec!["uploop/sub"],
+        vec!["pair"],
+        vec!["pair/x", "pair/y"],
+        vec!["empty"],
+        vec!["plain", "selfloop", "uploop", "pair", "empty"],
+    ];
+    let fails = run_items(ctx, &args, |_, a| {
+        for curve in ["BN254", "GOLDILOCKS"] {
+            let files: Vec<PathBuf> = a.iter().map(|x| root.join(x)).collect();
+            let mut opts = RunOpts::files(&files).verbose().level("info").curve(curve);
+            opts.cpu_secs = 60;
+            let out = binrun::run(&ctx.repo_bin, &opts).map_err(|e| Bad::new(format!("INFRA {e}")))?;
+            stats.eval(1);
+            stats.class("directory_argument_runs");
+            if let Err((why, sig)) = judge(&out, opts.cpu_secs) {
+                return Err(Bad::new(format!("directory arguments {a:?} under {curve}: {why}")).sig(sig).rendered(format!("{a:?}")));
+            }
+        }
+        Ok(())
+    });
+    let _ = std::fs::remove_dir_all(&root);
+    fails
+        .into_iter()
+        .map(|(i, b)| Failure { check: "directories".into(), tape: args[i].join(" ").into_bytes(), reason: b.reason, signature: b.signature, rendered: b.rendered })
+        .collect()
+}
+
 /// Replay a committed file: must terminate cleanly under all three curves.
 fn file_case(ctx: &Ctx, path: &str) -> Verdict {
     for curve in ["BN254", "BLS12_381", "GOLDILOCKS"] {
@@ -468,6 +523,13 @@ pub fn replay(ctx: &Ctx, check: &str, tape: &[u8]) -> Verdict {
         "deep" => deep_case(ctx, tape, &rec),
         "bytes" => bytes_case(ctx, tape, &rec),
         "corpus" => file_case(ctx, &String::from_utf8_lossy(tape)),
+        "directories" => {
+            let stats = Stats::new();
+            match directory_cases(ctx, &stats).into_iter().next() {
+                Some(f) => Err(Bad::new(f.reason).sig(f.signature)),
+                None => Ok(()),
+            }
+        }
         "fuzz_pipeline_bytes" => confirm_artifact(ctx, tape, false),
         "fuzz_pipeline_tape" => confirm_artifact(ctx, tape, true),
         _ => Err(Bad::new(format!("unknown check {check}"))),
@@ -498,6 +560,8 @@ pub fn run(ctx: &Ctx) -> i32 {
             .collect(),
     );
 
+    let fails = directory_cases(ctx, &stats);
+    outcome.absorb(&known, fails);
     let n = ctx.tier.pick(8_000, 150_000);
     let fails = run_tapes(ctx, "grammar", n, 1500, &stats, |tape, rec| grammar_case(ctx, tape, rec));
     outcome.absorb(&known, fails);
@@ -534,7 +598,7 @@ pub fn run(ctx: &Ctx) -> i32 {
         &outcome,
         EvidenceSpec {
             level: "exploration",
-            rule: "the real release binary is run (RLIMIT_CPU 120 s, RLIMIT_AS 4 GiB, cleared environment) on generated projects of 1-3 files x random supported options (curve, level, verbose, SARIF, allow list): (a) byte strings (raw bytes, ASCII, token soup over the grammar's terminals), (b) grammar-valid files — `wild` files using every production with no semantic discipline and semantically valid files, both under random layouts with comments/CRLF/non-ASCII, (d) small inputs (< 8 KiB) with one deeply nested construct — 16 shapes (operator chains in both directions, Horner, conditional expressions, prefix operators, array indices, calls, if/else-if/blocks/loops, parentheses, array literals, tuples, anonymous components) at depth 10..400 (array indices 40, loops 12, anonymous components 60), (c) near-valid inputs = 1-3 token-level mutations (delete, duplicate, swap, replace/insert a terminal, truncate, drop a declaration keyword, splice raw or invalid UTF-8 bytes) of (b); plus replay of all committed seed/reproducer files under all three curves. Clean termination = exit 0 or 1 by itself, last stdout line is the summary, status matches the summary, no `panicked at` / stack overflow / allocation failure / signal; a resource-limit hit is re-run with 4x budget before it counts. Non-trivial = distinct input (content hash) that reached the analysis stage (>= 1 `analyzing` line).",
+            rule: "the real release binary is run (RLIMIT_CPU 120 s, RLIMIT_AS 4 GiB, cleared environment) on generated projects of 1-3 files x random supported options (curve, level, verbose, SARIF, allow list): (a) byte strings (raw bytes, ASCII, token soup over the grammar's terminals), (b) grammar-valid files — `wild` files using every production with no semantic discipline and semantically valid files, both under random layouts with comments/CRLF/non-ASCII, (d) small inputs (< 8 KiB) with one deeply nested construct — 16 shapes (operator chains in both directions, Horner, conditional expressions, prefix operators, array indices, calls, if/else-if/blocks/loops, parentheses, array literals, tuples, anonymous components) at depth 10..400 (array indices 40, loops 12, anonymous components 60), (c) near-valid inputs = 1-3 token-level mutations (delete, duplicate, swap, replace/insert a terminal, truncate, drop a declaration keyword, splice raw or invalid UTF-8 bytes) of (b); plus replay of all committed seed/reproducer files under all three curves and nine directory-argument cases (nested directories, non-Circom files, symlink cycles). Clean termination = exit 0 or 1 by itself, last stdout line is the summary, status matches the summary, no `panicked at` / stack overflow / allocation failure / signal; a resource-limit hit is re-run with 4x budget before it counts. Non-trivial = distinct input (content hash) that reached the analysis stage (>= 1 `analyzing` line).",
             assumptions: vec![
                 "modest size: files <= 16 KiB; nesting depth <= 8 in the grammar generators and <= 400 in the nesting-depth domain (a single statement with >= 1000 operators overflowing the stack is recorded separately as a known finding)".into(),
                 "unbounded running is approximated by a CPU budget of 120 s (480 s on re-run; 30 s / 120 s for the nesting-depth inputs, which take about a second), far above the documented 2 x 10 s time box".into(),
